@@ -114,10 +114,12 @@ class DemodError(ValueError):
 
 
 def _pulses(samples):
-    """Pair runs into pulses (high run, low run) -> list of (high_len, low_len)."""
+    """Pair runs into pulses -> list of (high_len, low_len); the stream must start on a high half-period."""
     runs = run_lengths(samples)
-    if runs and not runs[0][0]:
-        runs = runs[1:]  # must start on a high half-period
+    if not runs:
+        raise DemodError("no samples")
+    if not runs[0][0]:
+        raise DemodError("stream starts with a low level")
     pulses = []
     for i in range(0, len(runs) - 1, 2):
         (h, hn), (l, ln) = runs[i], runs[i + 1]
@@ -129,20 +131,29 @@ def _pulses(samples):
     return pulses
 
 
+def _bytes_lsb_first(bits):
+    res = bytearray()
+    if len(bits) % 8:
+        raise DemodError("bit count is not a multiple of 8")
+    for i in range(0, len(bits), 8):
+        v = 0
+        for j, b in enumerate(bits[i:i + 8]):
+            v |= b << j
+        res.append(v)
+    return bytes(res)
+
+
 def demod_normal(samples):
     """BK-0010 normal-speed tape record -> (header20, payload, checksum, info).
 
-    Structure (BK-0010 monitor tape routine), measured in units of the pilot
-    half-period T taken from the pilot tone itself:
-      pilot (many 1T/1T pulses)  marker (4T/4T)  1-bit sync (2T/2T ... see below)
-      short pilot                marker          sync
-      160 bit cells (header)     short pilot marker sync   8*len bit cells
-      16 bit cells (checksum)    trailer pilot
-    A bit cell is one pulse with high==low: width 1T -> 0, width 2T -> 1, followed by a
-    1T/1T synchro pulse.
+    Pulse widths are measured in units of the pilot half-period T, taken from the pilot tone itself.
+    Symbols: S = T/T, L = 2T/2T, M = 4T/4T (marker).  Record structure (BK-0010 monitor tape routine):
+        pilot (>= 1000 S)  M L   pilot (>= 1 S)  M L   160 bit cells (header: base, length, 16 name bytes)
+        pilot (>= 1 S)  M L      8*length bit cells (payload)   16 bit cells (checksum)   trailer pilot (>= 16 S)
+    A bit cell is one synchro pulse S followed by one data pulse: S = 0, L = 1; bytes least significant bit first.
     """
     pulses = _pulses(samples)
-    if len(pulses) < 100:
+    if len(pulses) < 1100:
         raise DemodError("too short for a pilot tone")
     T = pulses[10][0]
     if T < 1:
@@ -152,13 +163,10 @@ def demod_normal(samples):
         h, l = p
         if h != l:
             raise DemodError(f"asymmetric pulse {p}")
-        if h == T:
-            return "S"
-        if h == 2 * T:
-            return "L"
-        if h == 4 * T:
-            return "M"
-        raise DemodError(f"pulse width {h} is not 1,2,4 x {T}")
+        for name, k in (("S", 1), ("L", 2), ("M", 4)):
+            if h == k * T:
+                return name
+        raise DemodError(f"pulse width {h} is not 1, 2 or 4 x {T}")
 
     sym = [cls(p) for p in pulses]
     pos = 0
@@ -170,57 +178,110 @@ def demod_normal(samples):
             pos += 1
             n += 1
         if n < minimum:
-            raise DemodError(f"pilot of {n} pulses, expected at least {minimum} at pulse {pos}")
+            raise DemodError(f"pilot of {n} pulses, expected at least {minimum} (pulse {pos})")
         return n
 
     def marker():
         nonlocal pos
         if sym[pos:pos + 2] != ["M", "L"]:
-            raise DemodError(f"marker expected at pulse {pos}, found {sym[pos:pos + 2]}")
+            raise DemodError(f"sync marker expected at pulse {pos}, found {sym[pos:pos + 2]}")
         pos += 2
-        # the marker's long pulse is followed by the synchro short pulse of a bit cell
-        if pos < len(sym) and sym[pos] == "S":
-            pos += 1
-        else:
-            raise DemodError(f"synchro pulse expected after marker at pulse {pos}")
 
-    def bits(n):
+    def cells(n):
         nonlocal pos
         out = []
         for _ in range(n):
-            if pos + 1 >= len(sym) + 0 and pos >= len(sym):
+            if pos + 1 >= len(sym):
                 raise DemodError("stream ends inside data")
-            d = sym[pos]
+            if sym[pos] != "S":
+                raise DemodError(f"synchro pulse expected at pulse {pos}, found {sym[pos]}")
+            d = sym[pos + 1]
             if d not in "SL":
-                raise DemodError(f"data pulse expected at {pos}, found {d}")
+                raise DemodError(f"data pulse expected at pulse {pos + 1}, found {d}")
             out.append(1 if d == "L" else 0)
-            pos += 1
-            if pos >= len(sym) or sym[pos] != "S":
-                raise DemodError(f"synchro pulse expected at {pos}")
-            pos += 1
+            pos += 2
         return out
-
-    def to_bytes(bl):
-        res = bytearray()
-        for i in range(0, len(bl), 8):
-            v = 0
-            for j, b in enumerate(bl[i:i + 8]):
-                v |= b << j  # least significant bit first
-            res.append(v)
-        return bytes(res)
 
     info = {"T": T}
     info["pilot"] = pilot(1000)
     marker()
     info["pilot2"] = pilot(1)
     marker()
-    header = to_bytes(bits(160))
+    header = _bytes_lsb_first(cells(160))
     info["pilot3"] = pilot(1)
     marker()
     length = struct.unpack("<H", header[2:4])[0]
-    payload = to_bytes(bits(8 * length))
-    checksum = struct.unpack("<H", to_bytes(bits(16)))[0]
+    payload = _bytes_lsb_first(cells(8 * length))
+    checksum = struct.unpack("<H", _bytes_lsb_first(cells(16)))[0]
     info["trailer"] = pilot(16)
     if pos != len(sym):
         raise DemodError(f"{len(sym) - pos} unexpected pulses after the trailer")
+    return header, payload, checksum, info
+
+
+def demod_turbo(samples):
+    """pdpy11's documented turbo format -> (header20, payload, checksum, info).
+
+    One pulse per bit: high for 1 sample = 0, high for 3 samples = 1, each followed by a low of 2 samples; blocks are
+    separated by a pause of 4 extra low samples; the pilot is >= 1000 pulses of 3/3 and ends with a marker of 12/12;
+    the record ends with two 3/3 pulses.  (No external standard exists for this format: constants as documented.)
+    """
+    runs = run_lengths(samples)
+    if not runs or not runs[0][0]:
+        raise DemodError("stream does not start on a high level")
+    pos = 0
+    n = 0
+    while pos + 1 < len(runs) and runs[pos] == (True, 3) and runs[pos + 1] == (False, 3):
+        pos += 2
+        n += 1
+    if n < 1000:
+        raise DemodError(f"turbo pilot of {n} pulses")
+    if runs[pos:pos + 2] != [(True, 12), (False, 12)]:
+        raise DemodError(f"turbo marker expected, found {runs[pos:pos + 2]}")
+    pos += 2
+    info = {"pilot": n}
+
+    def block(nbits, last_low):
+        """nbits bit pulses; the last one is followed by a low run of `last_low` samples"""
+        nonlocal pos
+        out = []
+        for i in range(nbits):
+            if pos + 1 >= len(runs) + (0 if last_low else 1):
+                raise DemodError("stream ends inside a turbo block")
+            h = runs[pos]
+            if not h[0] or h[1] not in (1, 3):
+                raise DemodError(f"bit pulse of width {h} at run {pos}")
+            want_low = last_low if i == nbits - 1 else 2
+            l = runs[pos + 1]
+            if l != (False, want_low):
+                raise DemodError(f"low run {l} after bit {i}, expected {want_low}")
+            out.append(1 if h[1] == 3 else 0)
+            pos += 2
+        return out
+
+    # the header is followed by one pause; an empty payload makes the two pauses adjacent
+    hb = []
+    start = pos
+    # read 159 bits plainly, the 160th has a longer low run that tells whether the payload is empty
+    hb = block(159, 2)
+    h = runs[pos]
+    if not h[0] or h[1] not in (1, 3):
+        raise DemodError("bad last header bit")
+    hb.append(1 if h[1] == 3 else 0)
+    low = runs[pos + 1]
+    pos += 2
+    header = _bytes_lsb_first(hb)
+    length = struct.unpack("<H", header[2:4])[0]
+    if length == 0:
+        if low != (False, 2 + 4 + 4):
+            raise DemodError(f"pauses after the header of an empty record: low run {low}")
+        payload = b""
+    else:
+        if low != (False, 2 + 4):
+            raise DemodError(f"pause after the header: low run {low}")
+        payload = _bytes_lsb_first(block(8 * length, 2 + 4))
+    cs = block(16, 2)
+    checksum = struct.unpack("<H", _bytes_lsb_first(cs))[0]
+    if runs[pos:] != [(True, 3), (False, 3), (True, 3), (False, 3)]:
+        raise DemodError(f"turbo trailer expected, found {runs[pos:pos + 6]}")
     return header, payload, checksum, info
